@@ -370,8 +370,24 @@ pub fn run_history(tape: &mut Tape, hp: &HistParams, detail: bool) -> HistReport
         // pre-state
         let pre_fs = w.fs_clone();
         let pre_disk: Vec<BTreeMap<String, Vec<DiskFile>>> = dirs.iter().map(|d| disk_view(&pre_fs, d)).collect();
+        // one set in five of an already cached key re-imports the cached file
+        // itself: the source is a hard link the application made of it (safe,
+        // says the documentation); set must still consume that source
+        let mut op = op;
+        if let (Op::Set { plen, .. }, Some(wd)) = (&op, writer_of(spec)) {
+            let plen = *plen;
+            if let Some(f) = pre_disk[wd].get(&kname).and_then(|v| v.first()) {
+                if f.valid && f.tag.is_some() && w.draw(5) == 0 {
+                    w.link_from = Some(format!("{}/{}", f.phys, kname));
+                    op = Op::Set { tag: f.tag.unwrap(), plen };
+                    bump(&mut counters, "probe:set_from_link_of_cached");
+                }
+            }
+        }
+        let op = op;
         let trace_mark = w.trace_len();
         let res = w.op(p, hi, &handles[p][hi], ki, key, &op);
+        w.link_from = None;
         ops_log.push(res.short());
         sig = mix(sig, hash_str(&format!("{}|{:?}|{}|{}", op.name(), spec_kind(spec), ki, short_out(&res))));
         bump(&mut counters, &format!("op:{}", op.name()));
@@ -542,7 +558,11 @@ pub fn run_history(tape: &mut Tape, hp: &HistParams, detail: bool) -> HistReport
                                             expect = Expect::Hit(f.tag);
                                         }
                                         None => {
-                                            model[wd].insert(kname.clone(), FileModel { tag: *tag, marked: Some(true) });
+                                            // inserted, then handed back: whether the
+                                            // hand-back is a fresh lookup (marks) or the
+                                            // handle already open (does not) is not
+                                            // something C09 states
+                                            model[wd].insert(kname.clone(), FileModel { tag: *tag, marked: None });
                                             expect = Expect::Hit(*tag);
                                         }
                                     }
@@ -642,7 +662,10 @@ pub fn run_history(tape: &mut Tape, hp: &HistParams, detail: bool) -> HistReport
             for (name, copies) in post_disk[di].iter() {
                 let c = &copies[0];
                 let before = pre_disk[di].get(name).and_then(|v| v.iter().find(|b| b.ino == c.ino));
-                if let Some(b) = before {
+                // a set whose source is a hard link of the entry itself keeps the
+                // inode and, being a set, re-queues it: judged as freshly written
+                let requeued_by_set = *name == kname && writer_of(spec) == Some(di) && matches!(op, Op::Set { .. } | Op::SetTemp { .. }) && res.out.is_ok();
+                if let Some(b) = before.filter(|_| !requeued_by_set) {
                     if restamped.contains(&(c.phys.clone(), name.clone())) {
                         continue;
                     }
